@@ -51,3 +51,12 @@ def potential(family, name, space, points, k=None, par=None, assembler="dense", 
 
 def absmv(A, x):
     return np.abs(np.asarray(A)) @ np.abs(np.asarray(x))
+
+
+def maxwell_raw(name, domain, range_, dual, k, par=None, assembler="default_nonlocal"):
+    """Maxwell operator through common.create_operator (accepts localised RWG/SNC spaces, whose identifier differs)."""
+    from bempp_cl.api.operators.boundary import common
+
+    ident = "maxwell_electric_field_boundary" if name == "electric_field" else "maxwell_magnetic_field_boundary"
+    atype = "maxwell_electric_field" if name == "electric_field" else "maxwell_magnetic_field"
+    return common.create_operator(ident, domain, range_, dual, par, assembler, [np.real(k), np.imag(k)], "helmholtz_single_layer", atype, None, None, True)
